@@ -10,9 +10,16 @@ import (
 	"runtime"
 	"runtime/debug"
 	"sort"
+	"strconv"
+	"time"
 
 	"github.com/openconfig/goyang/zzverif/tape"
 )
+
+var slowMS = func() int64 {
+	n, _ := strconv.ParseInt(os.Getenv("VERIF_SLOW_MS"), 10, 64)
+	return n
+}()
 
 // Stack returns the current goroutine's stack as a string.
 func Stack() string {
@@ -152,8 +159,17 @@ func Worker(d Driver, o WorkerOpts, stdout io.Writer) {
 		}
 		n++
 		t := tape.New(RunSeed(o.Seed, d.ID(), i))
+		var t0 time.Time
+		if slowMS > 0 {
+			t0 = time.Now() // diagnostics only; never influences a run
+		}
 		c := d.Generate(t, o.Tier)
 		oc := SafeRun(d, c)
+		if slowMS > 0 {
+			if ms := time.Since(t0).Milliseconds(); ms >= slowMS {
+				fmt.Fprintf(os.Stderr, "SLOW run %d: %d ms (ticks %d)\n", i, ms, oc.Ticks)
+			}
+		}
 		if o.Trace {
 			b, _ := json.Marshal(oc)
 			fmt.Fprintf(out, "T %d %x %s\n", i, tape.Hash64(compactJSON(c)), b)
